@@ -330,6 +330,8 @@ inductive Member where
   /-- `#name` property or method -/
   | esPrivate
   | staticBlock
+  /-- auto-accessor `accessor name: T = init` with a public key -/
+  | accessor (name : String) (access : Access) (isStatic : Bool) (ty : Option Ty) (init : Option Expr)
   deriving DecidableEq, Repr, Inhabited
 
 inductive OMember where
@@ -389,6 +391,16 @@ def transformMember (m : Member) (seenPrivateMethods : List String) :
       (if seenPrivateMethods.contains name then .ok ([], none)
        else .ok ([], some (.prop name .priv isStatic false true false (some "any") .dropped)))
     else (transformFn f kind false).map fun o => ([], some (.method name access isStatic kind o))
+  | .accessor name access isStatic ty init =>
+    -- an auto-accessor becomes a declared property of the same name, staticness and accessibility
+    if access = .priv then .ok ([], some (.prop name .priv isStatic false true false (some "any") .dropped))
+    else
+      match ty with
+      | some t => .ok ([], some (.prop name access isStatic false true false (some t) .dropped))
+      | none =>
+        match init.bind fun e => inferType e .mutable with
+        | some t => .ok ([], some (.prop name access isStatic false true false (some t) .dropped))
+        | none => .error .missingType
   | .ctor access params _ callsSuper =>
     -- a parameter property needs a type of its own (annotation, or inferable default) unless private
     if params.any untypedParamProp then .error .missingType
